@@ -41,6 +41,9 @@ def matrix():
     # two listeners: the request in flight is on one of them, the other is idle
     for kind, phase, which in itertools.product(KINDS, ["app-running", "response-partial", "head-partial"], [0, 1]):
         yield {"kind": kind, "phase": phase, "app": "finish", "sig": "TERM", "bind": "unix", "two_binds": which}
+    # histories: a busy worker is retired (TTOU with 2 workers, both inside a request that never ends) before the shutdown signal
+    for kind, sig in itertools.product(KINDS, SIGS):
+        yield {"kind": kind, "phase": "idle", "app": "finish", "sig": sig, "bind": "unix", "prelude": "retire-busy"}
     # histories: one reload (HUP) before the shutdown signal - the end state must be the same
     for kind, sig, bind in itertools.product(KINDS, SIGS, BINDS):
         yield {"kind": kind, "phase": "idle", "app": "finish", "sig": sig, "bind": bind, "prelude": "hup"}
@@ -76,8 +79,8 @@ def run_case(case):
     kind, phase, app, sig, bind = case["kind"], case["phase"], case["app"], case["sig"], case["bind"]
     signum = getattr(signal, "SIG" + sig)
     classes = ["kind:" + kind, "phase:" + phase, "app:" + app, "sig:" + sig, "bind:" + bind]
-    srv = renv.Server(kind=kind, workers=1, bind=bind, graceful=G, timeout=30, threads=2 if kind == "gthread" else None,
-                      keepalive=8)
+    srv = renv.Server(kind=kind, workers=2 if case.get("prelude") == "retire-busy" else 1, bind=bind, graceful=G, timeout=30,
+                      threads=2 if kind == "gthread" else None, keepalive=8)
     if case.get("two_binds") is not None:
         srv.cleanup()
         import os as _os
@@ -98,6 +101,25 @@ def run_case(case):
     try:
         if not srv.wait_ready():
             return Outcome([], False, classes + ["inconclusive:not-ready"], sample={"case": case, "log": srv.logtext()[-400:]})
+        busy = []
+        if case.get("prelude") == "retire-busy":
+            # both workers get a request that never finishes, then one of them is retired while busy
+            for i in range(6):
+                cc = srv.connect()
+                cc.sendall(("GET /hang/b%d HTTP/1.1\r\nHost: x\r\n\r\n" % i).encode())
+                busy.append(cc)
+                srv.started("b%d" % i, 2.0)
+                pids = set()
+                for j in range(i + 1):
+                    try:
+                        pids.add(open(srv.scratch + "/started-b%d" % j).read())
+                    except OSError:
+                        pass
+                if len(pids) >= 2:
+                    break
+            srv.signal(signal.SIGTTOU)
+            time.sleep(0.8)
+            classes.append("prelude:retire-busy")
         if case.get("prelude") == "hup":
             before = srv.workers()
             srv.signal(signal.SIGHUP)
@@ -110,10 +132,10 @@ def run_case(case):
             if not srv.wait_ready(10):
                 return Outcome([], False, classes + ["inconclusive:not-ready-after-hup"], sample={"case": case})
             classes.append("prelude:hup")
-        in_flight = phase in ("head-partial", "app-running", "response-partial")
+        in_flight = phase in ("head-partial", "app-running", "response-partial") or case.get("prelude") == "retire-busy"
         c = None
         got_first = b""
-        expect_response = sig == "TERM" and app == "finish" and in_flight
+        expect_response = sig == "TERM" and app == "finish" and phase in ("head-partial", "app-running", "response-partial")
         # ---------------- bring the connection into the phase
         if phase == "idle":
             c = srv.connect()
@@ -207,6 +229,11 @@ def run_case(case):
         if c is not None:
             try:
                 c.close()
+            except OSError:
+                pass
+        for cc in busy:
+            try:
+                cc.close()
             except OSError:
                 pass
         # ---------------- verdicts
